@@ -125,7 +125,7 @@ func init() {
 				for _, r := range baseRules {
 					keys[fieldsKey(r)] = true
 				}
-				// extras: k pairs (x, x$badfilter), each x structurally distinct from every base rule
+				// extras: k groups (x ... x, x$badfilter ...) with at least one of each, each x structurally distinct from every base rule
 				type el struct {
 					t     string
 					extra bool
@@ -152,7 +152,18 @@ func init() {
 						continue
 					}
 					extraKeys[fieldsKey(xr)] = true
-					for _, t := range []string{x, withBadfilter(x)} {
+					// the same rule may come from several lists: more copies of x than of its $badfilter twin (and the
+					// other way round) — one twin disables every copy
+					group := []string{x, withBadfilter(x)}
+					if g.Chance(1, 3) {
+						for c := 1 + g.Intn(2); c > 0; c-- {
+							group = append(group, x)
+						}
+					}
+					if g.Chance(1, 5) {
+						group = append(group, withBadfilter(x))
+					}
+					for _, t := range group {
 						p := g.Intn(len(els) + 1)
 						els = append(els[:p], append([]el{{t, true}}, els[p:]...)...)
 					}
